@@ -2,6 +2,7 @@
 C12 — alternative spellings and line splices do not change the tokens (lexer half).
 -/
 import NormModel.Proofs.LexTotal
+import NormModel.Proofs.RespellStream
 import NormModel.Spec.Spellings
 namespace Norm.C12
 open Norm
@@ -138,6 +139,100 @@ theorem splice_between_tokens (s : LexSt) (rest : List Char) (n : Nat) :
   · intro h
     conv => lhs; unfold skipSplices
     simp [rawPeek, h]
+
+/-! ### respelling as a relation on texts, and what it preserves -/
+
+/-- **A (safe) respelling**: `b` is `a` with some of the characters `# \ ^ [ ] | { } ~` written as a digraph or a
+trigraph.  A character that could itself start a digraph or trigraph (`? < % :`) is kept only where it is read as
+itself in both texts (the side condition of the last constructor). -/
+inductive Respelled : List Char → List Char → Prop
+  | nil : Respelled [] []
+  | keep (c : Char) {a b : List Char} : c ≠ '?' → c ≠ '<' → c ≠ '%' → c ≠ ':' → Respelled a b → Respelled (c :: a) (c :: b)
+  | alt (p : String × String) (c : Char) {a b : List Char} : p ∈ Generated.trigraphs ++ Generated.digraphs →
+      p.2.toList = [c] → Respelled a b → Respelled (c :: a) (p.1.toList ++ b)
+  | keepStarter (c : Char) {a b : List Char} : peek1 (c :: a) 0 = some (c, 1) → peek1 (c :: b) 0 = some (c, 1) →
+      Respelled a b → Respelled (c :: a) (c :: b)
+
+theorem table_targets_mem : ∀ p ∈ Generated.trigraphs ++ Generated.digraphs, ∀ c ∈ p.2.toList, c ∈ altTargets := by
+  decide +kernel
+
+theorem table_targets (p : String × String) (hp : p ∈ Generated.trigraphs ++ Generated.digraphs) (c : Char)
+    (hc : p.2.toList = [c]) : c ∈ altTargets := table_targets_mem p hp c (by rw [hc]; simp)
+
+/-- a respelled text is read as the same characters -/
+theorem respelled_reads_same {a b : List Char} (h : Respelled a b) : ReadEq a b := by
+  induction h with
+  | nil => exact ReadEq.nil
+  | keep c h1 h2 h3 h4 _ ih =>
+    exact ReadEq.step (peek1_raw h1 h2 h3 h4) (peek1_raw h1 h2 h3 h4) (by simpa using ih)
+  | alt p c hp hc _ ih =>
+    obtain ⟨c', hc', hpk⟩ := peek_respell p hp _
+    rw [hc] at hc'
+    simp only [List.cons.injEq, and_true] at hc'
+    subst hc'
+    obtain ⟨g1, g2, g3, g4⟩ := alt_plain c (table_targets p hp c hc)
+    exact ReadEq.step (peek1_raw g1 g2 g3 g4) hpk (by simpa using ih)
+  | keepStarter c h1 h2 _ ih => exact ReadEq.step h1 h2 (by simpa using ih)
+
+/-- **Longest match is the same in every spelling** (`parse_operator`): two texts read as the same characters give
+the same operator (same kind, taken by the same longest match), or both none; the texts left read the same again. -/
+theorem operator_longest_match (s t : LexSt) (h : ReadEq s.rest t.rest) :
+    OpSim (parseOperator s) (parseOperator t) := parseOperator_readEq s t h
+
+/-- **Punctuators through the whole sub-lexer chain**: when the next character read starts a punctuator
+other than `/` and `.` (one of `# ^ [ ] | { } ~ ? < % : + - * , > & ! = ; ( )`, in any spelling), both texts give a token of the same kind and value and continue in texts that read the same. -/
+theorem punctuator_token (u : Uni) (s t : LexSt) (h : ReadEq s.rest t.rest) (c : Char) (k : Nat)
+    (hp : peek1 s.rest 0 = some (c, k)) (hc : c ∈ altPunct) :
+    ChainSim (trySubLexers u s) (trySubLexers u t) := token_readEq u s t h c k hp hc
+
+/-- **The whole token stream is the same in every spelling** (C12, lexer half, for every text): a text and a
+respelling of it are lexed into items that correspond one to one — tokens of the same kind and the same value (the text
+of a block comment excepted: its tabs are expanded by column, which a respelling earlier on the line moves), the same
+bad lexemes; a stray backslash (no punctuator: a lexical error, in either spelling) ends the claim. -/
+theorem lex_respell (u : Uni) (a b : List Char) (ra rb : LexResult) (h : Respelled a b)
+    (ha : lex u a = .ok ra) (hb : lex u b = .ok rb) : ItemsSim ra.items rb.items :=
+  lex_readEq u a b ra rb ha hb (respelled_reads_same h)
+
+/-- token by token -/
+inductive ToksSim : List Token → List Token → Prop
+  | nil : ToksSim [] []
+  | cons {x y : Token} {xs ys : List Token} : x.type = y.type → (x.type ≠ "MULT_COMMENT" → x.value = y.value) →
+      ToksSim xs ys → ToksSim (x :: xs) (y :: ys)
+
+theorem toks_of_items {ia ib : List Item} (h : ItemsSim ia ib) (hno : ∀ i ∈ ia, (Item.tok? i).isSome = true) :
+    ToksSim (ia.filterMap Item.tok?) (ib.filterMap Item.tok?) := by
+  induction h with
+  | nil => exact ToksSim.nil
+  | tok h1 h2 _ ih =>
+    simp only [List.filterMap_cons, Item.tok?]
+    exact ToksSim.cons h1 h2 (ih (fun i hi => hno i (List.mem_cons_of_mem _ hi)))
+  | bad _ _ _ => have := hno _ (List.mem_cons_self); simp [Item.tok?] at this
+  | stray _ _ => have := hno _ (List.mem_cons_self); simp [Item.tok?] at this
+
+/-- **C12 for a text without bad lexemes**: the token sequences of the text and of any respelling of it have the same
+length, the same kinds and the same values (block comment texts excepted). -/
+theorem tokens_respell (u : Uni) (a b : List Char) (ra rb : LexResult) (h : Respelled a b)
+    (ha : lex u a = .ok ra) (hb : lex u b = .ok rb) (hno : ∀ i ∈ ra.items, (Item.tok? i).isSome = true) :
+    ToksSim ra.tokens rb.tokens := by
+  have hs := lex_respell u a b ra rb h ha hb
+  have ea : ra.tokens = ra.items.filterMap Item.tok? := by
+    unfold lex at ha
+    split at ha
+    · cases ha
+    · simp only [Except.ok.injEq] at ha; rw [← ha]
+  have eb : rb.tokens = rb.items.filterMap Item.tok? := by
+    unfold lex at hb
+    split at hb
+    · cases hb
+    · simp only [Except.ok.injEq] at hb; rw [← hb]
+  rw [ea, eb]
+  exact toks_of_items hs hno
+
+/-- Non-vacuity: `||=`-like runs in mixed spellings are respellings, hence read the same; and the two lexings agree. -/
+example : Respelled "|| x[1]".toList "??!??! x<:1:>".toList :=
+  .alt ("??!", "|") '|' (by decide) rfl (.alt ("??!", "|") '|' (by decide) rfl (.keep ' ' (by decide) (by decide) (by decide) (by decide)
+    (.keep 'x' (by decide) (by decide) (by decide) (by decide) (.alt ("<:", "[") '[' (by decide) rfl
+      (.keep '1' (by decide) (by decide) (by decide) (by decide) (.alt (":>", "]") ']' (by decide) rfl .nil))))))
 
 /-- Non-vacuity: kinds and values of a statement in three spellings, with splices between tokens. -/
 example :
